@@ -12,7 +12,10 @@ ToSet(s) == {s[k] : k \in DOMAIN s}
 Clause(t) ==
   IF t.raised THEN "C09.Raises"
   ELSE IF t.kind = "loguniform" THEN
-     IF \E j \in DOMAIN t.u4s : t.draws[j] # DrawP(t.i, t.k, t.u4s[j]) THEN "C09.LogUniformDrawMap"
+     \* the scripted flat variates are the symmetric lattice u = 0, 1/4, .., 1: ln x must be affine in u and fill [a, b], in either
+     \* direction (x = a (b/a)^u and x = b (b/a)^-u have the same density; the property does not fix the direction)
+     IF ~(\/ \A j \in DOMAIN t.u4s : t.draws[j] = DrawP(t.i, t.k, t.u4s[j])
+          \/ \A j \in DOMAIN t.u4s : t.draws[j] = DrawP(t.i, t.k, 4 - t.u4s[j])) THEN "C09.LogUniformDrawMap"
      ELSE IF \E j \in DOMAIN t.xs : t.logpfinite[j] # InSupport(t.xs[j], t.i, t.k) THEN "C09.LogDensityMinusInfinityOutsideSupport"
      ELSE IF \E j \in DOMAIN t.xs : InSupport(t.xs[j], t.i, t.k) /\ t.ratios[j] # DensRatio(t.xs[j], R(A(t.i))) THEN "C09.LogUniformDensityProportionalToOneOverX"
      ELSE IF ~t.normok THEN "C09.LogUniformDensityNormalised"
